@@ -710,6 +710,9 @@ static void sched_point_inner(int kind) {
   for (int i = 0; i < nthr; i++)
     if (i != me && T[i].last_run + 2000 < g_steps && runnable(i)) {
       n_fair++;
+      /* under strict priorities the starved thread would be preempted again after one step: the thread
+       * that monopolised the baton drops to the lowest priority (as a spinning thread does) */
+      if (pct_on) pct_prio[me] = --pct_low;
       handoff(i);
       return;
     }
